@@ -1,8 +1,67 @@
 (* C18 — JSON round-trips preserve every serialisable object.
-   Property theorems only: each closed by `exact <lemma>` and followed by Print Assumptions. *)
-From QV Require Import Json.JsonCheck Json.Codec_proofs.
+   Property theorems only: each closed by `exact <lemma>` and followed by Print Assumptions.
 
-(* legacy (pre-fix) variants are refuted by concrete witnesses *)
+   Reading guide.  `of_*` embed the typed data (Jssp/Instance.v, Evqe/Genome.v, Json/ResultCodec.v) as the Python
+   objects the codecs handle (Json/PyVal.v); `*_roundtrip v` is `json.loads(json.dumps(v, cls=Enc), cls=Dec)` in the
+   model of json's tree protocol with the encoder's default() and the decoder's object_hook transcribed from /repo.
+   The hypotheses are the constructors' checks as boolean predicates (objects exist only if their constructor
+   accepted them) plus "dict keys are pairwise different" (keys_distinct: it is a dict). *)
+From QV Require Import Json.JsonCheck Json.Protocol_proofs Json.Codec_proofs Json.Jssp_proofs Json.Evqe_proofs Json.Result_proofs.
+
+(* ---------------------------------------------------------------- job-shop codec *)
+Theorem C18_jssp_roundtrip :
+  (forall m, machine_ok m = true -> jssp_roundtrip (of_machine m) = Ok (of_machine m))
+  /\ (forall o, op_wf o = true -> jssp_roundtrip (of_op o) = Ok (of_op o))
+  /\ (forall j, job_wf j = true -> jssp_roundtrip (of_job j) = Ok (of_job j))
+  /\ (forall i, wf_instance i = true -> jssp_roundtrip (of_instance i) = Ok (of_instance i))
+  /\ (forall i s, wf_instance i = true -> schedule_wf s = true -> result_ok i s = true ->
+        jssp_roundtrip (of_result i s) = Ok (of_result i s)).
+Proof. exact jssp_roundtrip_all. Qed.
+Print Assumptions C18_jssp_roundtrip.
+
+(* a well-formed instance with names equal to marker keys, and a result that is invalid, has start time 0 twice,
+   an unscheduled operation and a schedule dict in reverse job order, satisfies the hypotheses *)
+Example C18_jssp_hypotheses_satisfiable :
+  wf_instance ex_inst = true /\ schedule_wf ex_sched = true /\ result_ok ex_inst ex_sched = true.
+Proof. exact jssp_example. Qed.
+Print Assumptions C18_jssp_hypotheses_satisfiable.
+
+(* ---------------------------------------------------------------- circuit-layer codec and population codec *)
+Theorem C18_evqe_roundtrip :
+  (forall g, layer_roundtrip (of_gate g) = Ok (of_gate g))
+  /\ (forall l, layer_wf l = true -> layer_roundtrip (of_layer l) = Ok (of_layer l))
+  /\ (forall g, evqe_roundtrip (of_gate g) = Ok (of_gate g))
+  /\ (forall l, layer_wf l = true -> evqe_roundtrip (of_layer l) = Ok (of_layer l))
+  /\ (forall i, ind_wf i = true -> evqe_roundtrip (of_ind i) = Ok (of_ind i))
+  /\ (forall p, pop_wf p = true -> evqe_roundtrip (of_population p) = Ok (of_population p)).
+Proof. exact evqe_roundtrip_all. Qed.
+Print Assumptions C18_evqe_roundtrip.
+
+Example C18_evqe_hypotheses_satisfiable : layer_wf ex_L = true /\ ind_wf ex_I = true /\ pop_wf ex_P = true.
+Proof. exact evqe_example. Qed.
+Print Assumptions C18_evqe_hypotheses_satisfiable.
+
+(* ---------------------------------------------------------------- solver-result codec (HEAD: head_flags) *)
+(* individuals and populations through the result codec (it delegates), population evaluation results, and complete
+   solver results: eigenvalue None / real / complex, auxiliary values absent / list / dict (values None, real, complex;
+   keys str or int), eigenstate absent or a QuasiDistribution with shots and bound each None or a number, best
+   individual, circuit_evaluations, generations, history (None, empty or any list), initial-state circuit token.
+   result_wf: complex parts are floats (they are, in Python), dict keys pairwise different, individuals valid. *)
+Theorem C18_result_roundtrip :
+  (forall i, ind_wf i = true -> result_roundtrip head_flags (of_ind i) = Ok (of_ind i))
+  /\ (forall p, pop_wf p = true -> result_roundtrip head_flags (of_population p) = Ok (of_population p))
+  /\ (forall e, popeval_wf e = true -> result_roundtrip head_flags (of_popeval e) = Ok (of_popeval e))
+  /\ (forall r, result_wf r = true -> result_roundtrip head_flags (of_solver_result r) = Ok (of_solver_result r)).
+Proof. exact result_roundtrip_all. Qed.
+Print Assumptions C18_result_roundtrip.
+
+Example C18_result_hypotheses_satisfiable :
+  result_wf wR_full = true
+  /\ popeval_wf (mkPopEval ex_P [Some (NFloat 1 (-1)); None; Some (NInt 2)] ex_I (NFloat 1 1)) = true.
+Proof. exact result_example. Qed.
+Print Assumptions C18_result_hypotheses_satisfiable.
+
+(* ---------------------------------------------------------------- solver-result codec: legacy variants refuted *)
 Theorem C18_generations_refuted :
   exists r y, result_roundtrip (mkFlags true false) (of_solver_result r) = Ok y /\ y <> of_solver_result r.
 Proof. exact generations_refuted. Qed.
